@@ -137,7 +137,13 @@ func (c EngineCfg) toJSON() map[string]any {
 	for _, x := range c.OvKey {
 		ov = append(ov, x)
 	}
-	return map[string]any{"nodes": nodes, "top": c.Top, "conns": conns, "ctx0": ctx0, "runs": c.Runs, "acts": acts,
+	flowretry := false
+	for _, n := range c.Nodes {
+		if n.Kind == "flow" && n.N > 1 {
+			flowretry = true
+		}
+	}
+	return map[string]any{"flowretry": flowretry, "nodes": nodes, "top": c.Top, "conns": conns, "ctx0": ctx0, "runs": c.Runs, "acts": acts,
 		"outs": outs, "cancel": c.Cancel, "nilstart": c.Nilstart, "ctxkind": c.CtxKind, "variant": c.Variant,
 		"genseed": c.GenSeed, "genmode": c.GenMode, "ovkey": ov, "ovphase": c.OvPhase, "ovkind": c.OvKind}
 }
@@ -158,7 +164,7 @@ func goKinds(n NodeCfg) []string {
 	case !n.Retry && n.Fb:
 		return []string{"plainfb"}
 	default:
-		return []string{"plain"}
+		return []string{"plain", "zerosize"}
 	}
 }
 
@@ -303,6 +309,7 @@ type scnRun struct {
 	att      map[int]int // node -> attempts in current visit
 	cancel   func()
 	ctx      context.Context // the context of the current run
+	seenCtx  []context.Context
 	nodes    map[int]flyt.Node
 	nCb      int
 	maxCb    int
@@ -312,7 +319,34 @@ type scnRun struct {
 	visitLog bool // append node ids to a list in the store (C10 differential)
 }
 
-func (s *scnRun) log(e Event)  { s.events = append(s.events, e) }
+// ctxAlive: every context a callback of this run was given so far is still alive, unless the run's own context is
+// done - a nested flow must not hand its nodes a context that dies before the whole run ends
+func (s *scnRun) ctxAlive(ctx context.Context) bool {
+	ok := true
+	rootDone := s.ctx != nil && s.ctx.Err() != nil
+	known := false
+	for _, c := range s.seenCtx {
+		if c == ctx {
+			known = true
+		}
+		if c.Err() != nil && !rootDone {
+			ok = false
+		}
+	}
+	if !known && ctx != nil {
+		s.seenCtx = append(s.seenCtx, ctx)
+		if ctx.Err() != nil && !rootDone {
+			ok = false
+		}
+	}
+	return ok
+}
+
+func (s *scnRun) log(e Event) {
+	s.mu.Lock()
+	s.events = append(s.events, e)
+	s.mu.Unlock()
+}
 func (s *scnRun) nextTok() int { t := s.tok; s.tok++; return t }
 
 // guard against runaway executions (only reachable when the library misroutes):
@@ -337,8 +371,9 @@ type leafCore struct {
 	id int
 }
 
-func (c *leafCore) prep(shared *flyt.SharedStore) (any, error) {
+func (c *leafCore) prep(ctx context.Context, shared *flyt.SharedStore) (any, error) {
 	s := c.s
+	cok := s.ctxAlive(ctx)
 	s.visits[c.id]++
 	s.att[c.id] = 0
 	o := s.script.Get(skey{s.run, c.id, s.visits[c.id], "prep", 0})
@@ -346,7 +381,7 @@ func (c *leafCore) prep(shared *flyt.SharedStore) (any, error) {
 		o = Outcome{Out: "err"}
 	}
 	t := s.nextTok()
-	ev := Event{"ev": "prep", "node": c.id, "sok": shared == s.store, "out": o.Out, "val": 0, "err": 0, "cancel": o.Cancel}
+	ev := Event{"ev": "prep", "node": c.id, "sok": shared == s.store, "cok": cok, "out": o.Out, "val": 0, "err": 0, "cancel": o.Cancel}
 	if s.visitLog && shared != nil {
 		cur, _ := shared.Get("visits")
 		l, _ := cur.([]int)
@@ -371,8 +406,9 @@ func (c *leafCore) prep(shared *flyt.SharedStore) (any, error) {
 }
 
 // exec returns (value, errorResultError, goError)
-func (c *leafCore) exec(arg Obs) (any, error, error) {
+func (c *leafCore) exec(ctx context.Context, arg Obs) (any, error, error) {
 	s := c.s
+	cok := s.ctxAlive(ctx)
 	s.att[c.id]++
 	k := s.att[c.id]
 	o := s.script.Get(skey{s.run, c.id, s.visits[c.id], "exec", k})
@@ -382,7 +418,7 @@ func (c *leafCore) exec(arg Obs) (any, error, error) {
 	if arg.IsErr {
 		aw = "eres"
 	}
-	ev := Event{"ev": "exec", "node": c.id, "k": k, "arg": arg.Tok, "aw": aw, "aid": arg.Same, "out": o.Out, "val": 0, "err": 0, "cancel": o.Cancel}
+	ev := Event{"ev": "exec", "node": c.id, "k": k, "arg": arg.Tok, "aw": aw, "aid": arg.Same, "cok": cok, "out": o.Out, "val": 0, "err": 0, "cancel": o.Cancel}
 	if o.Cancel {
 		s.cancel()
 	}
@@ -444,14 +480,15 @@ func (c *leafCore) fallback(prepResult any, err error) (any, error) {
 	return nil, s.reg.Err(t)
 }
 
-func (c *leafCore) post(shared *flyt.SharedStore, p, x Obs) (flyt.Action, error) {
+func (c *leafCore) post(ctx context.Context, shared *flyt.SharedStore, p, x Obs) (flyt.Action, error) {
 	s := c.s
+	cok := s.ctxAlive(ctx)
 	o := s.script.Get(skey{s.run, c.id, s.visits[c.id], "post", 0})
 	if s.overrun() {
 		o = Outcome{Out: "ok", Act: 99}
 	}
 	t := s.nextTok()
-	ev := Event{"ev": "post", "node": c.id, "sok": shared == s.store, "prep": p.Tok, "pid": p.Same && p.Wrap == "raw" && !p.IsErr,
+	ev := Event{"ev": "post", "node": c.id, "sok": shared == s.store, "cok": cok, "prep": p.Tok, "pid": p.Same && p.Wrap == "raw" && !p.IsErr,
 		"exec": x.Tok, "eid": x.Same, "ew": x.Wrap, "eerr": x.IsErr, "eerrtok": x.ErrTok,
 		"out": o.Out, "act": 0, "err": 0, "cancel": o.Cancel}
 	if o.Cancel {
@@ -480,32 +517,119 @@ type structNode struct {
 }
 
 func (n *structNode) Prep(ctx context.Context, shared *flyt.SharedStore) (any, error) {
-	return n.c.prep(shared)
+	return n.c.prep(ctx, shared)
 }
 func (n *structNode) Exec(ctx context.Context, p any) (any, error) {
-	v, _, err := n.c.exec(n.c.s.reg.ObserveAny(p))
+	v, _, err := n.c.exec(ctx, n.c.s.reg.ObserveAny(p))
 	return v, err
 }
 func (n *structNode) Post(ctx context.Context, shared *flyt.SharedStore, p, x any) (flyt.Action, error) {
-	return n.c.post(shared, n.c.s.reg.ObserveAny(p), n.c.s.reg.ObserveAny(x))
+	return n.c.post(ctx, shared, n.c.s.reg.ObserveAny(p), n.c.s.reg.ObserveAny(x))
 }
 
 type structFbNode struct{ structNode }
 
 func (n *structFbNode) ExecFallback(p any, err error) (any, error) { return n.c.fallback(p, err) }
 
+// stateless zero-size node types: all pointers to them share one address, only the dynamic type tells them apart
+var zsCores [8]*leafCore
+
+type zs0 struct{}
+type zs1 struct{}
+type zs2 struct{}
+type zs3 struct{}
+type zs4 struct{}
+type zs5 struct{}
+type zs6 struct{}
+type zs7 struct{}
+
+func zsPrep(ctx context.Context, k int, sh *flyt.SharedStore) (any, error) {
+	return zsCores[k].prep(ctx, sh)
+}
+func zsExec(ctx context.Context, k int, p any) (any, error) {
+	c := zsCores[k]
+	v, _, err := c.exec(ctx, c.s.reg.ObserveAny(p))
+	return v, err
+}
+func zsPost(ctx context.Context, k int, sh *flyt.SharedStore, p, x any) (flyt.Action, error) {
+	c := zsCores[k]
+	return c.post(ctx, sh, c.s.reg.ObserveAny(p), c.s.reg.ObserveAny(x))
+}
+
+func (*zs0) Prep(ctx context.Context, s *flyt.SharedStore) (any, error) { return zsPrep(ctx, 0, s) }
+func (*zs0) Exec(ctx context.Context, p any) (any, error)               { return zsExec(ctx, 0, p) }
+func (*zs0) Post(ctx context.Context, s *flyt.SharedStore, p, x any) (flyt.Action, error) {
+	return zsPost(ctx, 0, s, p, x)
+}
+func (*zs1) Prep(ctx context.Context, s *flyt.SharedStore) (any, error) { return zsPrep(ctx, 1, s) }
+func (*zs1) Exec(ctx context.Context, p any) (any, error)               { return zsExec(ctx, 1, p) }
+func (*zs1) Post(ctx context.Context, s *flyt.SharedStore, p, x any) (flyt.Action, error) {
+	return zsPost(ctx, 1, s, p, x)
+}
+func (*zs2) Prep(ctx context.Context, s *flyt.SharedStore) (any, error) { return zsPrep(ctx, 2, s) }
+func (*zs2) Exec(ctx context.Context, p any) (any, error)               { return zsExec(ctx, 2, p) }
+func (*zs2) Post(ctx context.Context, s *flyt.SharedStore, p, x any) (flyt.Action, error) {
+	return zsPost(ctx, 2, s, p, x)
+}
+func (*zs3) Prep(ctx context.Context, s *flyt.SharedStore) (any, error) { return zsPrep(ctx, 3, s) }
+func (*zs3) Exec(ctx context.Context, p any) (any, error)               { return zsExec(ctx, 3, p) }
+func (*zs3) Post(ctx context.Context, s *flyt.SharedStore, p, x any) (flyt.Action, error) {
+	return zsPost(ctx, 3, s, p, x)
+}
+func (*zs4) Prep(ctx context.Context, s *flyt.SharedStore) (any, error) { return zsPrep(ctx, 4, s) }
+func (*zs4) Exec(ctx context.Context, p any) (any, error)               { return zsExec(ctx, 4, p) }
+func (*zs4) Post(ctx context.Context, s *flyt.SharedStore, p, x any) (flyt.Action, error) {
+	return zsPost(ctx, 4, s, p, x)
+}
+func (*zs5) Prep(ctx context.Context, s *flyt.SharedStore) (any, error) { return zsPrep(ctx, 5, s) }
+func (*zs5) Exec(ctx context.Context, p any) (any, error)               { return zsExec(ctx, 5, p) }
+func (*zs5) Post(ctx context.Context, s *flyt.SharedStore, p, x any) (flyt.Action, error) {
+	return zsPost(ctx, 5, s, p, x)
+}
+func (*zs6) Prep(ctx context.Context, s *flyt.SharedStore) (any, error) { return zsPrep(ctx, 6, s) }
+func (*zs6) Exec(ctx context.Context, p any) (any, error)               { return zsExec(ctx, 6, p) }
+func (*zs6) Post(ctx context.Context, s *flyt.SharedStore, p, x any) (flyt.Action, error) {
+	return zsPost(ctx, 6, s, p, x)
+}
+func (*zs7) Prep(ctx context.Context, s *flyt.SharedStore) (any, error) { return zsPrep(ctx, 7, s) }
+func (*zs7) Exec(ctx context.Context, p any) (any, error)               { return zsExec(ctx, 7, p) }
+func (*zs7) Post(ctx context.Context, s *flyt.SharedStore, p, x any) (flyt.Action, error) {
+	return zsPost(ctx, 7, s, p, x)
+}
+
+func newZeroSize(k int, c *leafCore) flyt.Node {
+	zsCores[k] = c
+	switch k {
+	case 0:
+		return new(zs0)
+	case 1:
+		return new(zs1)
+	case 2:
+		return new(zs2)
+	case 3:
+		return new(zs3)
+	case 4:
+		return new(zs4)
+	case 5:
+		return new(zs5)
+	case 6:
+		return new(zs6)
+	}
+	return new(zs7)
+}
+
 // plain implementation of flyt.Node only
 type plainNode struct{ c *leafCore }
 
 func (n *plainNode) Prep(ctx context.Context, shared *flyt.SharedStore) (any, error) {
-	return n.c.prep(shared)
+	return n.c.prep(ctx, shared)
 }
 func (n *plainNode) Exec(ctx context.Context, p any) (any, error) {
-	v, _, err := n.c.exec(n.c.s.reg.ObserveAny(p))
+	v, _, err := n.c.exec(ctx, n.c.s.reg.ObserveAny(p))
 	return v, err
 }
 func (n *plainNode) Post(ctx context.Context, shared *flyt.SharedStore, p, x any) (flyt.Action, error) {
-	return n.c.post(shared, n.c.s.reg.ObserveAny(p), n.c.s.reg.ObserveAny(x))
+	return n.c.post(ctx, shared, n.c.s.reg.ObserveAny(p), n.c.s.reg.ObserveAny(x))
 }
 
 type plainFbNode struct{ plainNode }
@@ -530,15 +654,15 @@ func buildFuncNode(c *leafCore, nc NodeCfg, builderForm bool) flyt.Node {
 	reg := c.s.reg
 	wait := time.Duration(nc.W) * time.Millisecond
 	prepR := func(ctx context.Context, shared *flyt.SharedStore) (flyt.Result, error) {
-		v, err := c.prep(shared)
+		v, err := c.prep(ctx, shared)
 		if err != nil {
 			return flyt.Result{}, err
 		}
 		return flyt.NewResult(v), nil
 	}
-	prepA := func(ctx context.Context, shared *flyt.SharedStore) (any, error) { return c.prep(shared) }
+	prepA := func(ctx context.Context, shared *flyt.SharedStore) (any, error) { return c.prep(ctx, shared) }
 	execR := func(ctx context.Context, p flyt.Result) (flyt.Result, error) {
-		v, eres, err := c.exec(reg.ObserveResult(p))
+		v, eres, err := c.exec(ctx, reg.ObserveResult(p))
 		if err != nil {
 			return flyt.Result{}, err
 		}
@@ -548,14 +672,14 @@ func buildFuncNode(c *leafCore, nc NodeCfg, builderForm bool) flyt.Node {
 		return flyt.NewResult(v), nil
 	}
 	execA := func(ctx context.Context, p any) (any, error) {
-		v, _, err := c.exec(reg.ObserveAny(p))
+		v, _, err := c.exec(ctx, reg.ObserveAny(p))
 		return v, err
 	}
 	postR := func(ctx context.Context, shared *flyt.SharedStore, p, x flyt.Result) (flyt.Action, error) {
-		return c.post(shared, reg.ObserveResult(p), reg.ObserveResult(x))
+		return c.post(ctx, shared, reg.ObserveResult(p), reg.ObserveResult(x))
 	}
 	postA := func(ctx context.Context, shared *flyt.SharedStore, p, x any) (flyt.Action, error) {
-		return c.post(shared, reg.ObserveAny(p), reg.ObserveAny(x))
+		return c.post(ctx, shared, reg.ObserveAny(p), reg.ObserveAny(x))
 	}
 	fb := func(p any, err error) (any, error) { return c.fallback(p, err) }
 
@@ -622,6 +746,8 @@ func (s *scnRun) buildLeaf(id int) flyt.Node {
 		return &structFbNode{structNode{BaseNode: flyt.NewBaseNode(flyt.WithMaxRetries(nc.N), flyt.WithWait(wait)), c: c}}
 	case "plain":
 		return &plainNode{c: c}
+	case "zerosize":
+		return newZeroSize(id-1, c)
 	case "plainfb":
 		return &plainFbNode{plainNode{c: c}}
 	case "plainretry":
@@ -632,14 +758,14 @@ func (s *scnRun) buildLeaf(id int) flyt.Node {
 		// a one-item sequential batch node used as an ordinary step of a flow
 		b := flyt.NewBatchNode().WithMaxRetries(nc.N).WithWait(wait).
 			WithPrepFunc(func(ctx context.Context, shared *flyt.SharedStore) ([]flyt.Result, error) {
-				v, err := c.prep(shared)
+				v, err := c.prep(ctx, shared)
 				if err != nil {
 					return nil, err
 				}
 				return []flyt.Result{flyt.NewResult(v)}, nil
 			}).
 			WithExecFunc(func(ctx context.Context, p flyt.Result) (flyt.Result, error) {
-				v, _, err := c.exec(s.reg.ObserveResult(p))
+				v, _, err := c.exec(ctx, s.reg.ObserveResult(p))
 				if err != nil {
 					return flyt.Result{}, err
 				}
@@ -653,7 +779,7 @@ func (s *scnRun) buildLeaf(id int) flyt.Node {
 				if len(results) > 0 {
 					x = results[0]
 				}
-				return c.post(shared, s.reg.ObserveResult(p), s.reg.ObserveResult(x))
+				return c.post(ctx, shared, s.reg.ObserveResult(p), s.reg.ObserveResult(x))
 			})
 		if nc.Gk == "batchleafnode" {
 			return b.BatchNode
@@ -685,7 +811,12 @@ func (s *scnRun) node(id int, depth int) flyt.Node {
 		if nc.Start != 0 {
 			start = s.node(nc.Start, depth+1)
 		}
-		n = flyt.NewFlow(start)
+		f := flyt.NewFlow(start)
+		if nc.N > 1 {
+			// a flow is a retryable node: its own budget re-executes the whole sub-flow
+			flyt.WithMaxRetries(nc.N)(f.BaseNode)
+		}
+		n = f
 	} else {
 		n = s.buildLeaf(id)
 	}
@@ -701,6 +832,9 @@ func assignKinds(c *EngineCfg) {
 		}
 		ks := goKinds(c.Nodes[i])
 		c.Nodes[i].Gk = ks[(c.Variant+i)%len(ks)]
+		if c.Nodes[i].Gk == "zerosize" && i >= 8 {
+			c.Nodes[i].Gk = "plain" // only eight distinct zero-size types exist
+		}
 	}
 }
 
@@ -771,6 +905,7 @@ func runEngineScenarioOpt(cfg EngineCfg, script Script, viaFlowRun bool) ([]Even
 			ctx, s.cancel = c2, cancel
 		}
 		s.ctx = ctx
+		s.seenCtx = nil
 		ctx0 := r-1 < len(cfg.Ctx0) && cfg.Ctx0[r-1]
 		if ctx0 {
 			s.cancel()
